@@ -211,7 +211,14 @@ def classify(err, ranges):
     if fn.startswith("math/big.") and any(n.endswith(").ToBigInt") for n in snames) and any(n.endswith("(*SM2Point).GetAffineX") for n in snames) \
             and any(("SetBytes" in n or "norm" in n or "setBytes" in n) for n in snames[:4]):
         return scen, "allowed", dict(info, why="big.Int normalisation while boxing the result of GetAffineX")
-    if scen.startswith("vgL2_") and sfn.startswith("sm2.") and kind == "branch" and decision:
+    # (b) accept/reject decisions on a CANDIDATE in the entry points of package sm2: the condition of an if whose body
+    # leaves, either directly in the candidate loop of an exported entry point (one loop deep) or outside every loop of
+    # a helper. A decision inside a loop that walks over the BYTES of a candidate (a health test, a scan) is taken once
+    # per byte, not once per candidate: it is not a verdict.
+    depth = sum(1 for a, b in ((f or {}).get("loops") or []) if a <= line <= b) if f else 0
+    exported = bool(f and f["name"][:1].isupper() and not f.get("recv"))
+    info["loop_depth"] = depth
+    if scen.startswith("vgL2_") and sfn.startswith("sm2.") and kind == "branch" and decision and (depth == 0 or (exported and depth <= 1)):
         return scen, "allowed", dict(info, why="accept/reject decision (if ... { continue | return | break }) in the entry point")
     if scen.startswith("vgL2_"):
         # name the deny rule the report falls under (diagnostic only: every non-verdict report is a violation)
